@@ -140,7 +140,7 @@ NegLast(n, ms) == [j \in 1..Len(ms) |-> IF ms[j] = n - 1 THEN -1 ELSE ms[j]]
 AllNeg(n, ms)  == [j \in 1..Len(ms) |-> ms[j] - n]
 Spellings(n, ms, which) ==
     IF which = "all" THEN {ms, NegLast(n, ms), AllNeg(n, ms)}
-    ELSE IF which = "asc" \/ ms = SortedSeq(SeqRange(ms)) THEN {ms, NegLast(n, ms)}
+    ELSE IF which = "ends" /\ ms = SortedSeq(SeqRange(ms)) THEN {ms, NegLast(n, ms)}
     ELSE {ms}
 \* per-mode parameters are DISTINCT (DomPar depends on the mode) for counts, radii and penalties
 ItemsOf(n, k, which) ==
@@ -168,7 +168,9 @@ ValidSpec(n, items) ==
 RunShapes(n) == IF n = 3 THEN {<<3, 4, 2>>, <<4, 3, 3>>, <<3, 1, 4>>}              \* incl. a size-1 mode
                 ELSE IF n = 4 THEN {<<3, 2, 3, 2>>, <<2, 3, 2, 4>>, <<2, 3, 1, 3>>} ELSE {}
 RunRanks  == {1, 2, 3}
-RunInits  == {"svd", "random", "user", "exact"}
+RunInits  == {"svd", "random", "user", "exact", "feasible"}
+\* "feasible": a caller's CP tensor with NON-UNIT weights (positive or of mixed sign) whose factors
+\*          satisfy the constraint requested on their mode
 \* "user":  an entrywise non-negative CP tensor supplied by the caller
 \* "exact": the data ARE a CP tensor and the caller's start reproduces them (to rounding, or to 1e-4
 \*          when tol_outer is loose) through an equivalent but infeasible parametrisation: a component
@@ -206,7 +208,6 @@ SeqShifts == {0, 2, 4}
 ValidRun(n, r) == /\ r.shape \in RunShapes(n) /\ r.rank \in RunRanks /\ r.init \in RunInits
                   /\ ValidFixed(n, r.fixed) /\ r.via \in RunVia /\ ValidValues(r) /\ r.tol \in RunTols
                   /\ r.outer \in RunOuter /\ r.inner \in RunInner /\ r.data \in RunData
-                  /\ (r.outer = 0 => BuiltinInit(r))      \* a caller's start returned untouched: nothing to check
 (* Which modes carry the obligation.  initialize_constrained_parafac documents that the built-in    *)
 (* initialisations are passed through the proximal operator "so that they satisfy the imposed       *)
 (* constraints (does not apply to cptensor initialization)"; fixed_modes keeps "the initial value". *)
@@ -216,7 +217,16 @@ ValidRun(n, r) == /\ r.shape \in RunShapes(n) /\ r.rank \in RunRanks /\ r.init \
 (* outer budget >= 1 every FREE requested mode is obliged WHATEVER the start -- also one that fits  *)
 (* the data exactly: "fits" is not "satisfies the constraints".                                     *)
 ObligedModes(n, items, r) ==
-    {m \in Requested(n, items) : Assign(n, items)[m].kind \in HardKinds /\ (m \notin SeqRange(r.fixed) \/ BuiltinInit(r))}
+    {m \in Requested(n, items) : /\ Assign(n, items)[m].kind \in HardKinds
+                                 /\ \/ BuiltinInit(r)
+                                    \/ m \notin SeqRange(r.fixed) /\ r.outer >= 1}
+(* A factor of the caller's start that is RETURNED AS SUPPLIED -- a fixed mode, or with a zero outer  *)
+(* budget every mode but the last, into which the documentation pulls the start's weights -- has no  *)
+(* projection behind it, but "as supplied" means: if the supplied factor satisfied the constraint    *)
+(* requested on its mode, so does the returned one (equality of the values is C14's business).       *)
+KeptModes(n, items, r) ==
+    {m \in Requested(n, items) : /\ Assign(n, items)[m].kind \in HardKinds /\ ~BuiltinInit(r)
+                                 /\ m # n - 1 /\ (m \in SeqRange(r.fixed) \/ r.outer = 0)}
 \* operator events: proximal_operator(v, <spec>, n_const = n, order = mode) on a rows x cols matrix
 ValidProx(n, r) == /\ r.rows \in 2..4 /\ r.cols \in 1..3 /\ r.mode \in Modes(n) /\ r.data \in RunData /\ ValidValues(r)
 \* exceptions that are numerical break-downs of the linear algebra, not a statement about constraints
